@@ -1,9 +1,11 @@
 (* C36/Gen.v — regenerated from src/c/misc_thread_common.h.  Do not edit: rewritten by tools/props/c36.py regen() on every run.
    Straight-line pointer code of thread_canary_make_zombie (after its guard) and
-   _thread_canary_detach_with_lock, src/c/misc_thread_common.h. *)
+   _thread_canary_detach_with_lock; the regions between TLS_ZOM_LOCK() and TLS_ZOM_UNLOCK() of
+   cffi_thread_shutdown, thread_canary_dealloc and thread_canary_free_zombies; order/counter facts of
+   gil_ensure, gil_release and thread_canary_register.  src/c/misc_thread_common.h. *)
 From Coq Require Import List.
 Import ListNotations.
-From Cffi Require Import C36.Model.
+From Cffi Require Import C36.Ptr.
 Definition gen_make_zombie : list pstmt :=
   [PLoad VLast VHead FPrev; PStore VOb FNext VHead; PStore VOb FPrev VLast; PStore VLast FNext VOb; PStore VHead FPrev VOb].
 Definition gen_make_zombie_guarded : bool := true.
@@ -11,7 +13,25 @@ Definition gen_detach : list pstmt :=
   [PLoad VP VOb FPrev; PLoad VN VOb FNext; PStore VP FNext VN; PStore VN FPrev VP; PStoreNull VOb FPrev; PStoreNull VOb FNext].
 (* gil_ensure with an existing thread state: ts->gilstate_counter++ happens exactly once on the path that
    returns PyGILState_UNLOCKED (after/before PyEval_RestoreThread) resp. PyGILState_LOCKED (ts already
-   current: the callback was entered with the GIL held); gil_release is PyGILState_Release(oldstate) *)
+   current: the callback was entered with the GIL held); gil_release is PyGILState_Release(oldstate).
+   Consulted by C36.Model.step_fn (EvCb / EvCbNested / EvCbEnd / EvCbNestedEnd). *)
 Definition gen_gil_ensure_incr_unlocked : bool := true.
 Definition gen_gil_ensure_incr_locked : bool := true.
 Definition gen_gil_release_plain : bool := true.
+(* thread_canary_register: thread_canary_free_zombies() is its first statement; after the dict store
+   succeeded: tls->local_thread_canary = canary; exactly one tstate->gilstate_counter++.
+   Consulted by C36.Model.step_fn (EvCb first callback / EvMakeCanary). *)
+Definition gen_register_sweeps_first : bool := true.
+Definition gen_register_sets_local : bool := true.
+Definition gen_register_incr : bool := true.
+(* the locked regions, as programs of C36/Ptr.v (specified in C36/Proofs3.v) *)
+Definition gen_shutdown_locked : list xstmt :=
+  [XS (XLoadLocal XCan XTls);
+   XIfNonNull XCan [XLoadLocal XCan XTls; XStoreTlsNull XCan; XLoadLocal XCan XTls; XMakeZombie XCan]].
+Definition gen_dealloc_locked : list xstmt :=
+  [XIfLinked XOb [XDetach XOb];
+   XS (XLoadTls XTls XOb);
+   XIfNonNull XTls [XLoadTls XTls XOb; XStoreLocalNull XTls]].
+Definition gen_sweep_locked : list xstmt :=
+  [XS (XLoadHeadNext XOb);
+   XIfNotHead XOb [XLoadTstate XTstate XOb; XDetach XOb; XFatalIfNull XTstate]].
